@@ -20,7 +20,9 @@ Code-following part (`compile`): stone/frontend/ir_generator.py as it is in the 
   `Union.set_attributes`, the implicit catch-all `other`;
 * the on-demand population of a parent (`enforce_fully_defined`) with `_resolution_in_progress`: a depth-first walk
   with a visiting set. `populate` recurses on explicit fuel (`populateFuel` = number of type declarations + 1);
-  running out of fuel is the explicit error `outOfFuel` -- never a verdict;
+  running out of fuel is the explicit error `outOfFuel` -- never a verdict (Lemmas/FeCompileFuel.lean: it does not
+  happen); the walks along aliases, ancestors and imports have their own bounds and errors `fuelAlias`,
+  `fuelAncestors`, `fuelImports`;
 * `Alias.set_attributes`: the cycle search through aliases / List / Map / Nullable. Python keeps a visited set; the
   model searches without one (`reachK`, on fuel). On the state the search runs in -- the targets set so far contain
   no cycle, which is the loop invariant proved in Lemmas/FeCompileAcyclic.lean -- both visit the same aliases;
@@ -186,7 +188,8 @@ inductive Err where
   | routeTwoTypes | undefinedRoute | notRoute
   -- not `InvalidSpec`
   | crash (e : PyExc)     -- an exception of another class
-  | outOfFuel             -- the model's recursion bound was hit: no verdict
+  | outOfFuel             -- the recursion bound of `populate` was hit: no verdict
+  | fuelAlias | fuelAncestors | fuelImports   -- the bound of an alias / ancestor / import walk was hit: no verdict
   | internal              -- a state the code cannot be in (a populated parent that is not there)
   deriving DecidableEq, Repr, Inhabited
 
@@ -311,7 +314,7 @@ def addImport (nss : List String) (I : List (String × String)) (ns target : Str
   else if !nss.contains target then .error .importUndefined
   else match importReach I ns (nss.length + 1) target with
     | .yes => .error .importCircular
-    | .fuel => .error .outOfFuel
+    | .fuel => .error .fuelImports
     | .no => .ok ((ns, target) :: I)
 
 def addImportsDecls (nss : List String) (I : List (String × String)) (ns : String) :
@@ -373,7 +376,7 @@ def unwrapAliases (A : AliasMap) : Nat → Ty → Except Err (Option Ty)
   | f + 1, .alias k => match A.lookup k with
     | none => .ok none
     | some t => unwrapAliases A f t
-  | 0, .alias _ => .error .outOfFuel
+  | 0, .alias _ => .error .fuelAlias
   | _, t => .ok (some t)
 
 def aliasFuel (A : AliasMap) : Nat := A.length + 1
@@ -513,7 +516,7 @@ def setAlias (rx : String → Bool) (E : Env) (st : St) (ns name : String) (r : 
   | .ok t =>
     match anyTri (reachK st.aliases (ns, name) (st.aliases.length + 2)) t.aliases with
     | .yes => .error .aliasCycle
-    | .fuel => .error .outOfFuel
+    | .fuel => .error .fuelAlias
     | .no => .ok { st with aliases := ((ns, name), t) :: st.aliases, nrefs := st.nrefs ++ nullRefs t }
 
 def dupName : List String → Bool
@@ -523,7 +526,7 @@ def dupName : List String → Bool
 /-- the names in `_fields_by_name` of the ancestors, nearest first (`while cur_type:` of `set_attributes`) -/
 def ancestorNames (done : List (Key × CType)) : Nat → Option Key → Except Err (List String)
   | _, none => .ok []
-  | 0, some _ => .error .outOfFuel
+  | 0, some _ => .error .fuelAncestors
   | f + 1, some p =>
     match done.lookup p with
     | none => .error .internal
@@ -738,7 +741,7 @@ def pass3 (rx : String → Bool) (E : Env) : Except Err St :=
 
 /-- `unwrap(t)[0]`: through aliases and nullables -/
 def unwrapAll (A : AliasMap) : Nat → Ty → Except Err (Option Ty)
-  | 0, _ => .error .outOfFuel
+  | 0, _ => .error .fuelAlias
   | f + 1, .alias k => match A.lookup k with
     | none => .ok none
     | some t => unwrapAll A f t
